@@ -94,9 +94,9 @@ theorem collectLines_from (text : Nat → String) (isL : String → Bool) (R : L
   | .display _ es, m, hm => by
       simp only [collectLines]
       exact collectLinesList_from text isL R es _ hm
-  | .comp i _ inner, m, hm => by
+  | .comp i _ first inner, m, hm => by
       simp only [collectLines]
-      exact collectLinesList_from text isL R inner _ (hm.step' i)
+      exact collectLinesList_from text isL R inner _ (collectLines_from text isL R first _ (hm.step' i))
   | .starred _ e, m, hm => by
       simp only [collectLines]
       exact collectLines_from text isL R e _ hm
